@@ -101,6 +101,8 @@ func (net *Net) event(n *RealNode, ev string, f func() (string, string)) {
 	spi, out := f()
 	if n.Main != nil { // the same event, injected through the public API of a running MainLoop
 		switch {
+		case strings.HasPrefix(ev, "deliver-nc "):
+			ev = "lmsg " + strings.TrimPrefix(ev, "deliver-nc ")
 		case strings.HasPrefix(ev, "deliver "):
 			ev = "lmsg " + strings.TrimPrefix(ev, "deliver ")
 		case strings.HasPrefix(ev, "election "):
@@ -158,6 +160,13 @@ func (net *Net) deliverFlight(f *Flight) {
 		return // recipient is Byzantine or an outsider: the adversary already knows the message
 	}
 	enc := n.enc.msg(f.Raw)
+	if !n.enc.canonical(f.Raw) {
+		// same field values, other bytes: correct nodes drop it at the gate (its signatures would not
+		// verify again once its fields are re-encoded inside a proof)
+		net.c.Nontrivial("deliver/non-canonical")
+		net.event(n, "deliver-nc NC:"+enc, func() (string, string) { return n.Deliver(f.Raw) })
+		return
+	}
 	net.mon.beforeDeliver(n, f)
 	net.event(n, "deliver "+enc, func() (string, string) { return n.Deliver(f.Raw) })
 	net.mon.afterDeliver(n, f, enc)
